@@ -1076,6 +1076,14 @@ where
                 'C' => {
                     let close: Close = (&message).try_into()?;
 
+                    // The name is free again for the messages that follow in this batch.
+                    if self.prepared_statements_enabled
+                        && close.is_prepared_statement()
+                        && !close.anonymous()
+                    {
+                        self.prepared_statements.remove(&close.name);
+                    }
+
                     self.extended_protocol_data_buffer
                         .push_back(ExtendedProtocolData::create_new_close(message, close));
                     continue;
@@ -1399,6 +1407,14 @@ where
                     'C' => {
                         let close: Close = (&message).try_into()?;
 
+                        // The name is free again for the messages that follow in this batch.
+                        if self.prepared_statements_enabled
+                            && close.is_prepared_statement()
+                            && !close.anonymous()
+                        {
+                            self.prepared_statements.remove(&close.name);
+                        }
+
                         self.extended_protocol_data_buffer
                             .push_back(ExtendedProtocolData::create_new_close(message, close));
                     }
@@ -1500,9 +1516,11 @@ where
                                 }
                                 ExtendedProtocolData::Bind { data, metadata } => {
                                     // This is using a prepared statement
-                                    if let Some(client_given_name) = metadata {
+                                    if let Some((client_given_name, parse, hash)) = metadata {
                                         self.ensure_prepared_statement_is_on_server(
                                             client_given_name,
+                                            parse,
+                                            hash,
                                             &pool,
                                             server,
                                             &address,
@@ -1514,9 +1532,11 @@ where
                                 }
                                 ExtendedProtocolData::Describe { data, metadata } => {
                                     // This is using a prepared statement
-                                    if let Some(client_given_name) = metadata {
+                                    if let Some((client_given_name, parse, hash)) = metadata {
                                         self.ensure_prepared_statement_is_on_server(
                                             client_given_name,
+                                            parse,
+                                            hash,
                                             &pool,
                                             server,
                                             &address,
@@ -1536,7 +1556,7 @@ where
                                         && close.is_prepared_statement()
                                         && !close.anonymous()
                                     {
-                                        self.prepared_statements.remove(&close.name);
+                                        // (the name was released when the Close was read)
 
                                         // Queue up a close complete message to send to the client
                                         self.response_message_queue_buffer.put(close_complete());
@@ -1797,43 +1817,37 @@ where
     }
 
     /// Makes sure the the checked out server has the prepared statement and sends it to the server if it doesn't
+    ///
+    /// The statement is the one the name referred to when the Bind/Describe was read,
+    /// whatever later messages of the same batch did to that name.
     async fn ensure_prepared_statement_is_on_server(
         &mut self,
         client_name: String,
+        parse: Arc<Parse>,
+        hash: u64,
         pool: &ConnectionPool,
         server: &mut Server,
         address: &Address,
     ) -> Result<(), Error> {
-        match self.prepared_statements.get(&client_name) {
-            Some((parse, hash)) => {
-                debug!("Prepared statement `{}` found in cache", client_name);
-                // In this case we want to send the parse message to the server
-                // since pgcat is initiating the prepared statement on this specific server
-                match self
-                    .register_parse_to_server_cache(true, hash, parse, pool, server, address)
-                    .await
-                {
-                    Ok(_) => (),
-                    Err(err) => match err {
-                        Error::PreparedStatementError => {
-                            debug!("Removed {} from client cache", client_name);
-                            self.prepared_statements.remove(&client_name);
-                        }
-
-                        _ => {
-                            return Err(err);
-                        }
-                    },
+        debug!("Prepared statement `{}` found in cache", client_name);
+        // In this case we want to send the parse message to the server
+        // since pgcat is initiating the prepared statement on this specific server
+        match self
+            .register_parse_to_server_cache(true, &hash, &parse, pool, server, address)
+            .await
+        {
+            Ok(_) => (),
+            Err(err) => match err {
+                Error::PreparedStatementError => {
+                    debug!("Removed {} from client cache", client_name);
+                    self.prepared_statements.remove(&client_name);
                 }
-            }
 
-            None => {
-                return Err(Error::ClientError(format!(
-                    "prepared statement `{}` not found",
-                    client_name
-                )))
-            }
-        };
+                _ => {
+                    return Err(err);
+                }
+            },
+        }
 
         Ok(())
     }
@@ -1932,7 +1946,7 @@ where
         let client_given_name = Bind::get_name(&message)?;
 
         match self.prepared_statements.get(&client_given_name) {
-            Some((rewritten_parse, _)) => {
+            Some((rewritten_parse, hash)) => {
                 let message = Bind::rename(message, &rewritten_parse.name)?;
 
                 debug!(
@@ -1941,7 +1955,10 @@ where
                 );
 
                 self.extended_protocol_data_buffer.push_back(
-                    ExtendedProtocolData::create_new_bind(message, Some(client_given_name)),
+                    ExtendedProtocolData::create_new_bind(
+                        message,
+                        Some((client_given_name, rewritten_parse.clone(), *hash)),
+                    ),
                 );
 
                 Ok(())
@@ -1993,8 +2010,9 @@ where
         let client_given_name = describe.statement_name.clone();
 
         match self.prepared_statements.get(&client_given_name) {
-            Some((rewritten_parse, _)) => {
+            Some((rewritten_parse, hash)) => {
                 let describe = describe.rename(&rewritten_parse.name);
+                let metadata = Some((client_given_name.clone(), rewritten_parse.clone(), *hash));
 
                 debug!(
                     "Rewrote describe `{}` to `{}`",
@@ -2002,10 +2020,7 @@ where
                 );
 
                 self.extended_protocol_data_buffer.push_back(
-                    ExtendedProtocolData::create_new_describe(
-                        describe.try_into()?,
-                        Some(client_given_name),
-                    ),
+                    ExtendedProtocolData::create_new_describe(describe.try_into()?, metadata),
                 );
 
                 Ok(())
